@@ -75,6 +75,14 @@ def suites(tier, rng, replay):
                     j = json.load(open(os.path.join(d, f)))
                     cases.append({"cfg": j["cfg"], "ops": j["ops"], "bodies": {t: b for t, b, _ in j["cfg"]["txs"]},
                                   "origin": "corpus/C14/" + f})
+        # one tracker check with more due txids than fit one getdata batch (the tracker flushes every 100 items)
+        for ntx, nconn in ((102, 2), (205, 3)) if tier == "quick" else ((101, 2), (102, 2), (205, 3), (310, 2)):
+            bodies = {t: [9000 + t * 10] for t in range(1, ntx + 1)}
+            ops = [["inv", 1, t] for t in range(1, ntx + 1)] + [["inv", nconn - 1 if nconn > 2 else 0, t] for t in range(1, ntx + 1)]
+            ops += [["advance", 4100], ["check", nconn - 1 if nconn > 2 else 0], ["tracked", 0], ["tracked", 1],
+                    ["advance", 1100], ["check", 1], ["check", 0]]
+            cases.append({"cfg": {"nconn": nconn, "txs": [[t, bodies[t], 0] for t in sorted(bodies)]}, "ops": ops,
+                          "bodies": bodies, "origin": "scripted-bulk"})
         n = 250 if tier == "quick" else 4000
         for i in range(n):
             r = rng.fork(14000 + i)
